@@ -398,6 +398,11 @@ func (v *Verifier) verifyFunc(name string) *FuncResult {
 		}
 	}
 	st.entry = st.snapshot()
+	// ghost prologue: `after entry sets g := e` clauses run once, in order, before the body
+	// (old() in them and in the postconditions still denotes the state at entry)
+	if con != nil && len(con.After["entry"]) > 0 {
+		x.applyAfter(st, "entry", st.entry, fn.Pos())
+	}
 	// vacuity: the precondition must be satisfiable
 	x.obls = append(x.obls, &Obligation{Name: name + "#pre.sat", Func: name, Kind: "cover", Tags: x.tagsOf(nil), Src: "precondition is satisfiable",
 		pre: st.facts, Goal: "false", Expect: "sat"})
